@@ -155,7 +155,7 @@ var checks = []Check{
 		LevelNote:    "the process runs without a hard memory limit; hostile length prefixes are detected through the allocation counter, the pages are never touched",
 		Technique:    "deterministic simulation of the fuzz-protocol transport: seeded corruption / truncation / fragmentation of real session frames, panic and allocation oracles, tape shrinking + fresh-process replay",
 		DesignRef:    "DESIGN.md §4 H4 (transport faults), §5 C14",
-		ExpectProbes: []string{"fault:stream_bit-flip", "fault:stream_length-prefix-edit", "fault:stream_truncate-and-close", "fault:stream_garbage-frame", "fault:stream_unknown-message-type", "fault:stream_inner-length-edit", "fault:stream_fragmented_delivery", "probe:damaged_frame_rejected_with_error", "probe:damaged_frame_still_decodes"},
+		ExpectProbes: []string{"fault:stream_bit-flip", "fault:stream_length-prefix-edit", "fault:stream_truncate-and-close", "fault:stream_garbage-frame", "fault:stream_unknown-message-type", "fault:stream_inner-length-edit", "fault:stream_byte-set", "fault:stream_payload-cut-length-fixed", "fault:stream_fragmented_delivery", "probe:damaged_frame_rejected_with_error", "probe:damaged_frame_still_decodes"},
 	},
 	{
 		Property: "C26", Harness: "h4chain", Level: "exploration",
@@ -375,7 +375,7 @@ var checks = []Check{
 		LevelNote:    "types.MaxKeyLevelCacheSize is a package variable and is varied by the harness; entries <= ~50 per history",
 		Technique:    "deterministic simulation: seeded operation histories on a long-lived component with randomised tuning knob, differential oracle (cached vs from-scratch), tape shrinking + fresh-process replay",
 		DesignRef:    "DESIGN.md §4 H5, §5 C16",
-		ExpectProbes: []string{"probe:value_changed_same_length", "probe:embedded_hashed_flip", "probe:key_reinserted", "fault:cache_cleared", "fault:instance_reset", "probe:capacity_exceeded_during_walk"},
+		ExpectProbes: []string{"probe:value_changed_same_length", "probe:embedded_hashed_flip", "probe:key_reinserted", "probe:value_padded_or_trimmed_with_zero_octets", "probe:value_one_octet_changed", "fault:cache_cleared", "fault:instance_reset", "probe:capacity_exceeded_during_walk"},
 	},
 	{
 		Property: "C28", Harness: "h1tel", Level: "exploration",
